@@ -23,18 +23,21 @@ PROPS_FILE = 'C07_Props.v'
 COQ_IMPORTS = ['C07_Model']
 TOL = None
 ORACLE_PREMISES = [
-    'RLE Lossless codec of pydicom: decode(encode(x)) = x on frames its EncodeRunner.validate accepts',
     'JPEG-LS codec (pyjpegls, NEAR=0): decode(encode(x)) = x whenever encode does not raise',
     'JPEG 2000 lossless codec (not installed here): decode(encode(x)) = x',
     'pydicom YBR_FULL->RGB conversion applied by Dataset.pixel_array is not modelled (open finding D51)',
     'pydicom EncodeRunner.validate is re-modelled (check_pydicom/check_profile) and cross-checked, not proved about pydicom',
+    'pydicom RLE Lossless encoder/decoder are re-modelled (rle_encode_frame/rle_decode_frame; round trip PROVED on the model) '
+    'and compared byte for byte with the real codec on every run',
 ]
 MODELLED = ('frame.encode_frame: whole validation cascade (tables regenerated from source by translate_c07.py), '
             'native encoders (pack_bits, little-endian words); frame.decode_frame: bit-packed path with frame '
             'offset, pydicom native path (option/length validation, words, unused-bit correction); '
-            'pydicom EncodeRunner.validate for the encapsulated syntaxes. Codecs are premises.')
+            'pydicom EncodeRunner.validate for the encapsulated syntaxes; pydicom RLE Lossless encoder and decoder '
+            '(bytes and decoded array model-compared); decode_frame entry-point validation with arbitrary parameters. '
+            'JPEG-LS / JPEG 2000 codecs are premises.')
 STRATA = ['matrix_native', 'matrix_encaps', 'rt_native', 'rt_bits', 'rt_rle', 'rt_jls', 'nofit',
-          'decode_malformed', 'rle_malformed', 'bit_index', 'ybr_full']
+          'decode_malformed', 'rle_malformed', 'decode_params', 'bit_index', 'ybr_full']
 NOT_EXECUTED = ['JPEG 2000 / JPEG 2000 Lossless encoding (pylibjpeg-openjpeg not installed): only the '
                 'validation cascade in front of the codec is exercised']
 RULE = ('matrix_*: cells of the parameter matrix (syntax x array shape x bits allocated x bits stored x '
@@ -43,7 +46,10 @@ RULE = ('matrix_*: cells of the parameter matrix (syntax x array shape x bits al
         'bits allocated x PI x pixel representation x planar configuration cell); rt_*: valid combinations with random content '
         'incl. extremes of the stored range, all sizes 1..6 x 1..9 (1-bit: every size with rows*cols % 8 == 0); '
         'nofit: content outside the Bits Stored range; decode_malformed: truncated/extended byte strings; '
-        'bit_index: multi-frame bit-packed streams, every residue of frame size mod 8. '
+        'bit_index: multi-frame bit-packed streams, every residue of frame size mod 8, 1 or 3 samples; '
+        'rt_rle also draws run-structured content (runs of 1..258 around the 128 limit, rows of 127..300 pixels); '
+        'rle_malformed: truncated / extended RLE streams, header or body byte replaced; decode_params: decode_frame '
+        'with one parameter different from the encoding call. '
         'non-trivial = accepted frame with more than one distinct value, or a refusal; distinct by case hash')
 EXHAUSTIVE = {'quick': False, 'thorough': False}
 
@@ -383,6 +389,47 @@ def gen_cases(rng, tier):
         else:
             c['pos'], c['val'] = rng.randint(64, 400), rng.choice([0, 1, 2, 126, 127, 128, 129, 130, 254, 255])
         cases.append(c)
+    # ---- decode_frame with ONE parameter different from the encoding parameters (entry-point validation:
+    #      enum conversions, planar configuration, Bits Stored, frame size; sign / unused-bit re-interpretation)
+    perts = ['pixrep2', 'pi', 'plNone', 'pl2', 'pl1', 'bs0', 'bs+', 'bs-', 'rows+', 'rows-', 'pr1']
+    for i in range({'quick': 66, 'thorough': 900, 'search': 400}[tier]):
+        ts = ['expl', 'impl', 'rle'][i % 3]
+        pert = perts[(i // 3) % len(perts)]
+        colour = rng.random() < 0.45
+        s = 3 if colour else 1
+        ba = rng.choice([8, 16] if ts == 'rle' else [1, 8, 16])
+        dt = {1: 'uint8', 8: 'uint8', 16: 'uint16'}[ba]
+        rows, cols = rng.choice([(2, 4), (1, 8), (3, 8), (2, 8)])
+        if pert == 'rows-' and (rows == 1 or (colour and ba != 1 and ts != 'rle')):
+            pert = 'rows+'
+        data = [rng.choice([0, 2 ** ba - 1, rng.randint(0, 2 ** ba - 1)]) for _ in range(rows * cols * s)]
+        c = _case('decode_params', ts, rows, cols, colour, 3 if colour else 0, ba, ba,
+                  'RGB' if colour else 'MONOCHROME2', 0, 0 if colour else None, dt, data)
+        q = {'rows': rows, 'bs': ba, 'pi': c['pi'], 'pr': 0, 'pl': c['pl']}
+        if pert == 'pixrep2':
+            q['pr'] = 2
+        elif pert == 'pi':
+            q['pi'] = 'BOGUS'
+        elif pert == 'plNone':
+            q['pl'] = None
+        elif pert == 'pl2':
+            q['pl'] = 2
+        elif pert == 'pl1':
+            q['pl'] = 1
+        elif pert == 'bs0':
+            q['bs'] = 0
+        elif pert == 'bs+':
+            q['bs'] = ba + 1
+        elif pert == 'bs-':
+            q['bs'] = max(1, ba - rng.randint(1, 7))
+        elif pert == 'rows+':
+            q['rows'] = rows + 1
+        elif pert == 'rows-':
+            q['rows'] = rows - 1
+        elif pert == 'pr1':
+            q['pr'] = 1
+        c['q'] = q
+        cases.append(c)
     # ---- the same values in another memory layout (the array VALUE is what must round-trip), and a
     #      preceding encode/decode of the same format with the other pixel representation (history)
     rng2 = random.Random(rng.random())
@@ -545,6 +592,12 @@ def _observe(c):
         obs['dec'] = dec(v, c.get('index', 0))
         obs['out'] = obs['dec']
         return obs
+    if k == 'decode_params':
+        q = c['q']
+        obs['dec'] = _dec_val(lambda: hf.decode_frame(value, uid, q['rows'], c['cols'], s, c['ba'], q['bs'], q['pi'],
+                                                      q['pr'], q['pl']))
+        obs['out'] = obs['dec']
+        return obs
     if k == 'rle_malformed':
         cut = c['cut']
         v = value[:cut] if cut < 0 else value + bytes(range(1, cut + 1))
@@ -604,6 +657,9 @@ def coq_term(c):
     if k == 'decode_malformed':
         # the byte string is produced by the model's own encoder and damaged in the same way
         return f"(run_decode_damaged {_params(c)} {c.get('index', 0)} {zlit(c['cut'])} {zl(vals)})"
+    if k == 'decode_params':
+        q = dict(c, rows=c['q']['rows'], bs=c['q']['bs'], pi=c['q']['pi'], pr=c['q']['pr'], pl=c['q']['pl'])
+        return f"(run_decode_params {_params(c)} {_params(q)} {zl(vals)})"
     if k == 'rle_malformed':
         return f"(run_rle_damaged {_params(c)} {zlit(c['cut'])} {zlit(c['pos'])} {zlit(c['val'])} {zl(vals)})"
     if c['ts'] in NATIVE:
@@ -674,6 +730,8 @@ def oracle(c, out):
     vals = _wrapped(c)
     s = c['shape2'] if c['ndim3'] else 1
     want_shape = [c['rows'], c['cols']] + ([s] if s > 1 else [])
+    if k == 'decode_params':
+        return None     # decoding with other parameters is outside the round-trip clause: model comparison only
     if k == 'rle_malformed':
         return None     # no independent judgement on a damaged compressed stream: model comparison only
     if k == 'decode_malformed':
